@@ -162,6 +162,7 @@ def step (st : State) (toks : List String) : State × String :=
     match i.toNat? with
     | some i => ({ st with dists := (i, []) :: st.dists.filter (·.1 ≠ i) }, "ok")
     | none => (st, "bad-op")
+  | ["dist-burst", _, _] => (st, "ok")     -- writes to another keyspace: queued in the distributor, not part of this keyspace's model
   | ["dist-change", i, l, j] =>
     match i.toNat?, parseMembers l, parseMembers j with
     | some i, some l, some j =>
